@@ -401,7 +401,10 @@ def _update_file_hashes(hw: HashWords, file_hashes: Mapping[str, FileHash]):
         hw.update(path)
         hw.update(file_hash.mode.to_bytes(8))
         hw.update(file_hash.size.to_bytes(8))
-        hw.update(file_hash.digest)
+        # The placeholder of an unknown hash is a single byte, a real digest has 32 of them.
+        # A missing word keeps the two apart: as a `bytes` word of its own length,
+        # the placeholder followed by the next path could imitate a real digest.
+        hw.update(None if file_hash.is_unknown else file_hash.digest)
 
 
 # Frozen because a step hash is a value object: `with_out_hashes` returns a new instance.
